@@ -3,10 +3,12 @@ package c05
 
 import (
 	"bytes"
+	"strings"
 
 	"verifharness/sym"
 
 	"github.com/blinklabs-io/gouroboros/ledger/common"
+	"github.com/btcsuite/btcd/btcutil/bech32"
 )
 
 var Registry = map[string]func(){
@@ -14,6 +16,63 @@ var Registry = map[string]func(){
 	"PointerDecode": PointerDecode,
 	"PointerEncode": PointerEncode,
 	"FromParts":     FromParts,
+	"HRPGate":       HRPGate,
+}
+
+var hrps = []string{"addr", "addr_test", "stake", "stake_test", "ADDR", "add", "a", "stake_tes", "addr_test2", "wrong"}
+
+// HRPGate: parsing the text form accepts a bech32 address only under the human-readable part
+// its header calls for (addr / addr_test / stake / stake_test by type and network, compared
+// case-insensitively): the header byte is symbolic, the prefix is chosen by a symbolic
+// selector from the right prefixes, their proper prefixes, extensions and strangers. Under
+// the executor the bech32 decoder is replaced by its contract (prefix and 5-bit groups of the
+// payload); natively the string is really encoded and decoded.
+func HRPGate() {
+	n := sym.Param("len") // 29 or 57
+	payload := sym.Bytes("addr", n)
+	typ, net := payload[0]>>4, payload[0]&0x0f
+	sym.Assume(typ != 4 && typ != 5 && typ != 8 && net <= 1)
+	sel := int(sym.U8("hrp_choice"))
+	sym.Assume(sel < len(hrps))
+	hrp := ""
+	for i := range hrps { // concrete string on each path
+		if sel == i {
+			hrp = hrps[i]
+		}
+	}
+	data5, err := bech32.ConvertBits(payload, 8, 5, true)
+	sym.Assume(err == nil)
+	text := "stub"
+	if sym.Symbolic() {
+		common.VerifBech32HRP, common.VerifBech32Data = hrp, data5
+	} else {
+		text, err = bech32.Encode(strings.ToLower(hrp), data5)
+		if err != nil {
+			panic(err)
+		}
+		if hrp == "ADDR" {
+			text = strings.ToUpper(text) // bech32 allows an all-upper-case string
+		}
+	}
+	a, perr := common.NewAddress(text)
+	sym.ObsBool("accepted", perr == nil)
+	sym.Reach("decided")
+	want := "addr"
+	if typ == 14 || typ == 15 {
+		want = "stake"
+	}
+	if net != 1 {
+		want += "_test"
+	}
+	el := expLen(typ)
+	wellFormed := el != 0 && (n == el || (n > el && net == 1 && whitelisted(payload[el:])))
+	if perr == nil {
+		sym.Reach("accepted")
+		sym.Assert(wellFormed && strings.EqualFold(hrp, want), "text parsing accepts a bech32 address only under the prefix that matches its type and network")
+		sym.Assert(a.Type() == typ && a.NetworkId() == uint(net), "the parsed address has the header's type and network")
+	} else {
+		sym.Assert(!(wellFormed && strings.EqualFold(hrp, want)), "a well-formed address under its own prefix parses")
+	}
 }
 
 // expected length of a non-pointer Shelley-family address of the given type (0 = not such a type)
